@@ -302,7 +302,11 @@ class FlowFields(ImageBatch):
             type with sampling coordinates instead of ``Grid`` instances.
 
         """
-        flow = super().sample(arg, mode=mode, padding=padding)
+        return super().sample(arg, mode=mode, padding=padding)
+
+    def _regrid(self: TFlowFields, data: Tensor, grid: Sequence[Grid]) -> TFlowFields:
+        r"""Create new instance of data sampled on other grids, with vectors w.r.t. these grids."""
+        flow = self._make_instance(data, grid)
         if isinstance(flow, FlowFields):
             axes = flow.axes()
             if axes != Axes.WORLD:
